@@ -5,6 +5,7 @@ import (
 	"fmt"
 	"os"
 	"path/filepath"
+	"sort"
 	"strings"
 	"testing"
 
@@ -24,11 +25,11 @@ type Case struct {
 }
 
 func gen(t *rapid.T) Case {
-	return Case{Project: jgen.GenProject(t, jgen.Opts{Bodies: true, MultiByte: true, Interfaces: true, MaxUnits: 4, MaxMethods: 4, Anon: true, Wide: true, RichDecl: true})}
+	return Case{Project: jgen.GenProject(t, jgen.Opts{Bodies: true, MultiByte: true, Interfaces: true, MaxUnits: 4, MaxMethods: 4, Anon: true, Wide: true, RichDecl: true, Loops: true})}
 }
 
 func genScoped(t *rapid.T) Case {
-	return Case{Project: jgen.GenProject(t, jgen.Opts{Bodies: true, ScopedReuse: true, MaxUnits: 3, MaxMethods: 4, Anon: true, Wide: true, RichDecl: true})}
+	return Case{Project: jgen.GenProject(t, jgen.Opts{Bodies: true, ScopedReuse: true, MaxUnits: 3, MaxMethods: 4, Anon: true, Wide: true, RichDecl: true, Loops: true})}
 }
 
 func check(c Case) pbt.Verdict {
@@ -60,7 +61,11 @@ func check(c Case) pbt.Verdict {
 	kinds := map[string]bool{}
 	total, sameLine, resolved := 0, false, 0
 	var canon []string
+	shapes := map[string]bool{}
 	for i, u := range c.Project.Units {
+		for _, f := range u.Features {
+			shapes["shape_"+f] = true
+		}
 		ds, ok := byName[u.FullName()]
 		if !ok {
 			return pbt.Fail("type %s is not in the model", u.FullName())
@@ -95,6 +100,9 @@ func check(c Case) pbt.Verdict {
 				g := got[k]
 				total++
 				kinds[e.Recv] = true
+				if e.Decl != "" {
+					shapes["recv_local_declared_in_"+e.Decl] = true
+				}
 				if e.Line == lastLine {
 					sameLine = true
 				}
@@ -136,6 +144,10 @@ func check(c Case) pbt.Verdict {
 	for k := range kinds {
 		v.Classes = append(v.Classes, "recv_"+k)
 	}
+	for k := range shapes {
+		v.Classes = append(v.Classes, k)
+	}
+	sort.Strings(v.Classes)
 	if sameLine {
 		v.Classes = append(v.Classes, "two_invocations_on_one_line")
 	}
@@ -188,10 +200,12 @@ var _ = filepath.Join
 func init() {
 	pbt.SetProperty("C02")
 	jgen.SetExcluded(pbt.Excluded)
-	pbt.Describe("rapid-generated conventional Java projects (jgen, 1-4 units) whose method and constructor bodies hold 0-15 statements (local declarations, assignments, if/else, for, for-each, while, switch, try/catch/finally, return, expression statements) nested up to depth 3, with invocations of every receiver kind (implicit, this, field, this.field, parameter, local, for-each variable, static, chained, on a fresh object, lambda body), `new` expressions, several per line, arguments over several lines, any indentation (blanks or tabs), string literals and comments with multi-byte characters in front of call sites. Oracle: the ordered list of (kind, name, line, column) recorded by the printer for each function; recorded calls must match it one to one in order, each recorded column range must select the callee identifier (in characters), creations must carry the created type, and for implicit / field / parameter / local receivers whose declared type is a plain project or imported class the recorded package and node must be that class. Non-trivial = >= 3 invocations of >= 2 receiver kinds in the project, or two invocations on one line; distinct = hash of the (kind, receiver kind, column) sequence.",
+	pbt.Describe("rapid-generated conventional Java projects (jgen, 1-4 units) whose method and constructor bodies hold 0-15 statements (local declarations, assignments, if/else, for, for-each, while, switch, try/catch/finally, return, expression statements) nested up to depth 3; enhanced for statements over project classes, primitives (int, long, char, double), arrays (int[], String[]), String / Object / Integer and List<String> elements, with or without `final`; classic for statements whose loop variable is an int or a local variable of a project class declared in the header (for (Node n = first; n != null; n = n.next()), called in the header and the body, and in the scoped_names sub-check possibly named like a field it shadows inside the loop only); bodies of if / else / for / for-each / while / do written as a block or as a single statement without braces on the same or the next line (a call, an assignment or another loop / branch, hence `else if` chains), with invocations of every receiver kind (implicit, this, field, this.field, parameter, local, for-each variable, static, chained, on a fresh object, lambda body), `new` expressions, several per line, arguments over several lines, any indentation (blanks or tabs), string literals and comments with multi-byte characters in front of call sites. Oracle: the ordered list of (kind, name, line, column) recorded by the printer for each function; recorded calls must match it one to one in order, each recorded column range must select the callee identifier (in characters), creations must carry the created type, and for implicit / field / parameter / local receivers whose declared type is a plain project or imported class the recorded package and node must be that class. Non-trivial = >= 3 invocations of >= 2 receiver kinds in the project, or two invocations on one line; distinct = hash of the (kind, receiver kind, column) sequence.",
 		"variable names are unique per project, so that a receiver name denotes one declaration (name reuse across files is C07's domain)",
 		"resolution is asserted only for the receiver kinds the statement lists; this., for-each, lambda, static and chained receivers are checked for name/position/order only",
-		"array creations (`new int[3]`) are written but are not object creations and must not be recorded")
+		"array creations (`new int[3]`) are written but are not object creations and must not be recorded",
+		"a variable declared in the header of a classic for is a local variable (resolution asserted, class label recv_local_declared_in_forinit); the variable of an enhanced for keeps the receiver kind for-each (name/position/order only)",
+		"a statement without braces is never a declaration (Java forbids it)")
 	pbt.Register("callsites", 400, 3000, gen, check)
 	// the same oracle on units whose methods reuse parameter / local names with different types
 	// and shadow fields: a receiver name denotes the declaration visible at the call site
